@@ -124,8 +124,8 @@ func (c *UDPConn) SetReadDeadline(t time.Time) error {
 }
 
 func (c *UDPConn) SetWriteDeadline(time.Time) error { return nil }
-func (c *UDPConn) SetReadBuffer(int) error           { return nil }
-func (c *UDPConn) SetWriteBuffer(int) error          { return nil }
+func (c *UDPConn) SetReadBuffer(int) error          { return nil }
+func (c *UDPConn) SetWriteBuffer(int) error         { return nil }
 
 // Inject queues an inbound datagram (harness side); a scheduling point.
 func (c *UDPConn) Inject(from net.Addr, payload []byte) {
